@@ -163,20 +163,20 @@ CLAIMED['C07'] = {
   'design': '7.3 (C07)',
 }
 CLAIMED['C12'] = {
-  'text': 'Deterministic generation, mostly bounded: proved (z3) is ApiNamespace.normalize (every listing of the description is sorted and a '
-          'permutation of what it was: independent of insertion order, hence of what was compiled earlier). Byte-identity across processes is a '
-          'relation between runs that no function contract states: Compiler.build is run in this process (hash seed 0) for every built-in backend '
-          'that needs no template input (python_types, python_type_stubs, python_client, js_types, js_client, tsd_types) x three spec sets (one '
+  'text': 'Deterministic generation, mostly bounded: proved (z3) are ApiNamespace.normalize (every listing of the description is sorted and a '
+          'permutation of what it was: independent of insertion order, hence of what was compiled earlier) and the order it sorts routes by (ApiRoute._compare / __lt__: a function of name and version only, not of identity or hash). Byte-identity across processes is a '
+          'relation between runs that no function contract states: Compiler.build is run in this process (hash seed 0) for the built-in backends '
+          'python_types, python_type_stubs, python_client, js_types, js_client, tsd_types, tsd_client (template files supplied), swift_types, obj_c_types, obj_c_client, and js_client / python_client / tsd_client with several repeated -a flags, x three spec sets (one '
           'with unions and structs carrying several omitted callers and redactors) and its files are compared byte for byte with fresh processes '
           'under other hash seeds writing into other folders -- a BOUNDED stand-in, exhaustive over that grid in every run.',
-  'note': 'Found and fixed: _permissioned_tagmaps emitted as the repr of a set (F-C12-1). Not covered: swift / obj-c backends (template inputs), '
+  'note': 'Found and fixed: _permissioned_tagmaps emitted as the repr of a set (F-C12-1). Not covered: swift_client (refuses the route corpus), '
           '"after running another backend in the same process".',
   'design': '7.3 (C12)',
 }
 CLAIMED['C02'] = {
   'text': 'Faithful, closed image, partly proved: the by-name tables of a namespace are proved (z3) to be the tables of its listings '
-          '(ApiNamespace.add_route, add_data_type, add_alias) and ApiNamespace.normalize to leave every listing sorted by its key and a '
-          'permutation of what it was. That the passes of ir_generator.py build a description faithful to the declarations is NOT proved: '
+          '(ApiNamespace.add_route, add_data_type, add_alias), ApiNamespace.normalize to leave every listing sorted by its key and a '
+          'permutation of what it was, and the routes\' own order (ApiRoute._compare, __lt__) to be alphabetical by name, then by version. That the passes of ir_generator.py build a description faithful to the declarations is NOT proved: '
           'random API models (1-3 namespaces with imports, aliases and alias chains through lists / maps, structs with inheritance, open and '
           'closed unions with inheritance, primitive types with parameters, List / Map / Nullable nesting <= 3, defaults, docs, routes with '
           'versions, deprecation and attributes) are rendered to text with the definitions of each namespace in shuffled order, compiled, and '
